@@ -1,36 +1,44 @@
-(* Props/C04.v -- property theorems for C04 (greedy word filling).
-   This file contains only statements closed by `exact`, pinned by Check, with their
-   assumptions printed.  The proofs live in Proofs/. *)
-From H2T Require Import Base Tagged Wrap Spec.Greedy.
+(* Props/C04.v -- property theorems for C04 (paragraph wrapping is exactly greedy word
+   filling).  Only statements, closed by `exact`, pinned by Check, assumptions printed.
+   Proofs: Proofs/GreedyProof.v.  Reference wrapper: Spec/Greedy.v. *)
+From H2T Require Import Base Tagged Wrap Spec.Greedy Proofs.GreedyProof.
 
-(* The reference wrapper is total: it never panics or diverges (placeholder obligation
-   until Proofs/GreedyProof.v lands; see the end of this file). *)
-Lemma hard_chars_no_panic : forall W w ls cur curw,
-  match hard_chars W ls cur curw w with Panic _ | OutOfFuel => False | _ => True end.
-Proof.
-  intros W w; induction w as [|c w IH]; intros ls cur curw; cbn [hard_chars]; [exact I|].
-  destruct (curw + cw0 c <=? W); [apply IH|].
-  destruct (W <? cw0 c); [exact I|].
-  destruct cur; [exact I|apply IH].
-Qed.
+(* For every width, every text and every way of splitting it into calls with arbitrary
+   tags (text nodes / inline elements), the lines the WrappedBlock model emits in normal
+   mode are those of the reference greedy wrapper, and it fails with TooNarrow exactly
+   when the reference does; never Panic, never OutOfFuel. *)
+Theorem c04_greedy : forall (W : N) (calls : list (text * tag)),
+  1 <= W -> all_words_pos (concat (map fst calls)) ->
+  impl_lines W calls = greedy W (words_of (concat (map fst calls))).
+Proof. exact GreedyProof.c04_greedy. Qed.
+Check c04_greedy : forall (W : N) (calls : list (text * tag)),
+  1 <= W -> all_words_pos (concat (map fst calls)) ->
+  impl_lines W calls = greedy W (words_of (concat (map fst calls))).
+Print Assumptions c04_greedy.
 
-Definition np {A} (r : res A) : Prop := match r with Panic _ | OutOfFuel => False | _ => True end.
-Lemma bind_np {A B} (r : res A) (f : A -> res B) : np r -> (forall a, np (f a)) -> np (bind r f).
-Proof. destruct r; cbn; auto. Qed.
+(* The result does not depend on how the text is split over nodes and inline elements. *)
+Theorem c04_split_independent : forall W calls1 calls2, 1 <= W ->
+  concat (map fst calls1) = concat (map fst calls2) ->
+  all_words_pos (concat (map fst calls1)) ->
+  impl_lines W calls1 = impl_lines W calls2.
+Proof. exact GreedyProof.c04_split_independent. Qed.
+Print Assumptions c04_split_independent.
 
-Theorem c04_reference_total : forall W ws_,
-  match greedy W ws_ with Panic _ | OutOfFuel => False | _ => True end.
-Proof.
-  intros W ws_. change (np (greedy W ws_)). unfold greedy.
-  assert (H : forall st, np (place_words W st ws_)).
-  { induction ws_ as [|w ws' IH]; intros st; cbn [place_words]; [exact I|].
-    apply bind_np; [|exact IH].
-    destruct st as [[ls cur] curw]. unfold place_word.
-    destruct cur as [|c0 cur0].
-    - destruct (swidth w <=? W); [exact I|apply hard_chars_no_panic].
-    - destruct (curw + 1 + swidth w <=? W); [exact I|apply hard_chars_no_panic]. }
-  apply bind_np; [apply H|]. intros [[ls cur] cw_]. exact I.
-Qed.
-Check c04_reference_total : forall W ws_,
-  match greedy W ws_ with Panic _ | OutOfFuel => False | _ => True end.
-Print Assumptions c04_reference_total.
+(* never a panic or a hang *)
+Theorem c04_no_panic : forall W calls,
+  1 <= W -> all_words_pos (concat (map fst calls)) ->
+  match impl_lines W calls with Ok _ | TooNarrow => True | _ => False end.
+Proof. exact GreedyProof.c04_no_panic. Qed.
+Print Assumptions c04_no_panic.
+
+(* the hypotheses are satisfiable and the conclusion is non-trivial: a concrete run
+   (wide, zero-width and control characters, two differently tagged calls, a word that
+   must be hard-wrapped) yielding three lines *)
+Theorem c04_nonvacuous :
+  1 <= 5 /\ all_words_pos (concat (map fst ex_calls)) /\
+  impl_lines 5 ex_calls =
+    Ok [ [ex_a; ex_b];
+         [ex_wide; ex_zw; ex_c; ex_d; ex_e];
+         [ex_f; ex_g; ex_h; spacel L_space; ex_i] ].
+Proof. exact GreedyProof.c04_nonvacuous. Qed.
+Print Assumptions c04_nonvacuous.
